@@ -6,3 +6,4 @@ import Generated.GoAnsi
 import Generated.GoStyle
 import Generated.GoObject
 import Generated.GoConfig
+import Generated.GoSplicer
